@@ -142,3 +142,13 @@ func cmdList(cfg Config) int {
 	}
 	return 0
 }
+
+func init() {
+	debugHook = func(p *Program) {
+		if os.Getenv("GOCV_DEBUG") != "" {
+			for k, f := range p.mapFacts {
+				fmt.Fprintf(os.Stderr, "mapfact %s: %d entries\n", k, len(f.entries))
+			}
+		}
+	}
+}
